@@ -161,6 +161,9 @@ def run(chk):
                 return v is not None and ".end" in provenance(defs, v)
             return isinstance(e, ast.Attribute) and e.attr == "end" or (isinstance(e, ast.Subscript) and ".end" in provenance(defs, e))
         limit_form(ibv, "the validity limit of fresh results", is_end, 1, "invalid_beyond = end - k * window[1] - c")
+    gw = repo.func("OverlapWindowPlugin._get_window_size", OVERLAP)
+    conv = [c for c in calls_in(gw.node) if call_name(c) in ("float", "np.float64", "np.float32")] + [x for x in walk_body(gw.node) if isinstance(x, ast.BinOp) and isinstance(x.op, ast.Div)]
+    chk.check(not conv, "C09.R3", gw, stmt_of(conv[0]) if conv else None, "the declared window is converted to floating point: `end - 2 * window - 1` is then evaluated in float64, which at realistic timestamps (~1e18 ns) is only exact to 256 ns - the limits can land beyond the chunk end", site_text="_get_window_size: window handed out as declared (no float conversion)")
     cbc = [c for c in calls_in(dc.node) if call_name(c) == "self.cache_beyond" and len(c.args) == 3 and norm(c.args[2]) == "self.cached_input"]
     chk.check(len(cbc) == 1, "C09.R3", dc, None, "input cache refresh not found", site_text="do_compute: cache_beyond(kwargs, limit, self.cached_input)")
     if len(cbc) == 1:
@@ -237,6 +240,8 @@ WITNESSES = [
       "self.cache_beyond(kwargs, cache_inputs_beyond, self.cached_input)\n        return result", "return result"),
     W("new input before cached input", "C09.R3", OVERLAP,
       "[self.cached_input[data_kind], chunk], self.allow_superrun", "[chunk, self.cached_input[data_kind]], self.allow_superrun"),
+    W("window converted to float", "C09.R3", OVERLAP,
+      "return window_size, window_size\n        elif", "return float(window_size), float(window_size)\n        elif"),
     W("input cache starts after sent_until", "C09.R3", OVERLAP,
       "cache_inputs_beyond = int(self.sent_until - 2 * window_size[0] - 1)", "cache_inputs_beyond = int(self.sent_until + 2 * window_size[0] - 1)"),
     W("input cache keeps only half a look-back window", "C09.R3", OVERLAP,
